@@ -87,8 +87,20 @@ int vf_poly_gen(vf_rng *r, const vf_poly_opts *o, vf_poly *p) {
     p->bbox_u[1] = maxlat;
     p->bbox_u[2] = minlng;
     p->bbox_u[3] = maxlng;
-    /* holes: inside the disc of radius rmin (before the linear map), centres 120 degrees apart */
+    /* holes: inside the largest disc around the centre that fits into the outer loop (measured before the
+     * linear map, which preserves containment and disjointness), centres 120 degrees apart */
+    double inr = 1e9;
+    for (int i = 0; i < n; i++) {
+        int j = (i + 1) % n;
+        double ax = rad[i] * cos(ang[i]), ay = rad[i] * sin(ang[i]), bx = rad[j] * cos(ang[j]), by = rad[j] * sin(ang[j]);
+        double dx = bx - ax, dy = by - ay, t = -(ax * dx + ay * dy) / (dx * dx + dy * dy);
+        if (t < 0) t = 0;
+        if (t > 1) t = 1;
+        double d = hypot(ax + t * dx, ay + t * dy);
+        if (d < inr) inr = d;
+    }
     p->nholes = o->nholes > 3 ? 3 : o->nholes;
+    if (inr < 0.02) p->nholes = 0;
     double base = vf_unit(r) * 2 * M_PI;
     for (int h = 0; h < p->nholes; h++) {
         int hn = 3 + (int)vf_below(r, 6);
@@ -101,8 +113,8 @@ int vf_poly_gen(vf_rng *r, const vf_poly_opts *o, vf_poly *p) {
                 break;
             }
         }
-        double cx = 0.5 * o->rmin * cos(base + h * 2 * M_PI / 3), cy = 0.5 * o->rmin * sin(base + h * 2 * M_PI / 3);
-        double hr = o->rmin * (0.05 + 0.14 * vf_unit(r)) * (o->hole_scale > 0 ? o->hole_scale : 1.0);
+        double cx = 0.5 * inr * cos(base + h * 2 * M_PI / 3), cy = 0.5 * inr * sin(base + h * 2 * M_PI / 3);
+        double hr = inr * (0.05 + 0.14 * vf_unit(r)) * (o->hole_scale > 0 ? o->hole_scale : 1.0);
         p->hn[h] = hn;
         p->hole_u[h] = malloc((size_t)hn * sizeof(LatLng));
         p->hole_w[h] = malloc((size_t)hn * sizeof(LatLng));
@@ -165,3 +177,47 @@ int vf_poly_side(const vf_poly *p, LatLng pt, ld band, ld *mind) {
     if (s == 0) return 0;
     return res;
 }
+
+/* the standard polygon case of C07/C15: everything derived from one 64-bit seed (tier independent) */
+/* build the polygon of a case from its seed */
+int vf_poly_case(uint64_t seed, vf_poly *P, int *res_out, char *desc, size_t dlen) {
+    vf_rng r;
+    vf_rng_seed(&r, seed);
+    int res = (int)vf_below(&r, 16);
+    vf_poly_opts o = {0};
+    int place = (int)vf_below(&r, 8);
+    LatLng c;
+    if (place == 0) { /* a pentagon's surroundings */
+        cellToLatLng(vf_make_cell(res, REF_PENT_BC[vf_below(&r, 12)], (int[15]){0}), &c);
+    } else if (place <= 2) { /* on the antimeridian */
+        c.lat = asin(2 * vf_unit(&r) - 1) * 0.85;
+        c.lng = vf_below(&r, 2) ? M_PI : -M_PI;
+    } else {
+        c = vf_rand_ll(&r);
+        c.lat *= 0.9;
+    }
+    H3Index ch;
+    vf_cell cc;
+    if (latLngToCell(&c, res, &ch) || vf_cell_load(ch, &cc)) return 0;
+    double w = (double)cc.width;
+    /* size in cell widths: 0.05 .. 30, log-uniform */
+    double sizew = 0.05 * pow(600.0, vf_unit(&r));
+    o.radius = sizew * w;
+    if (o.radius > 0.5) o.radius = 0.5;
+    o.lat0 = c.lat + (vf_unit(&r) - 0.5) * 2 * w;
+    o.lng0 = c.lng + (vf_unit(&r) - 0.5) * 2 * w / cos(c.lat);
+    o.rmin = vf_below(&r, 3) ? 0.3 + 0.6 * vf_unit(&r) : 0.08 + 0.2 * vf_unit(&r); /* concavity */
+    int needle = vf_below(&r, 3) == 0;
+    o.aspect = needle ? pow(10.0, -0.7 - 2.0 * vf_unit(&r)) : 1.0; /* down to 1:500 */
+    o.needle_rot = vf_unit(&r) * M_PI;
+    o.nverts = 3 + (int)vf_below(&r, 38);
+    o.nholes = vf_below(&r, 3) == 0 ? 1 + (int)vf_below(&r, 3) : 0;
+    o.holes_cw = (int)vf_below(&r, 2);
+    o.hole_scale = 0.5 + 1.5 * vf_unit(&r);
+    if (!vf_poly_gen(&r, &o, P)) return 0;
+    *res_out = res;
+    snprintf(desc, dlen, "res %d, %d vertices, %d hole(s), size %.2f cell widths, aspect %.4f, %s%s centre (%.4f,%.4f)", res, P->n, P->nholes, o.radius / w, o.aspect,
+             P->crosses_antimeridian ? "crosses the antimeridian, " : "", place == 0 ? "around a pentagon," : "", o.lat0, o.lng0);
+    return 1;
+}
+
